@@ -94,6 +94,8 @@ class LogicEval:
             return k
         if isinstance(e, ast.Name) and isinstance(env.get(e.id), str):
             return env[e.id]
+        if isinstance(e, ast.IfExp):
+            return self._opkey(e.body if self._truth(e.test, env) else e.orelse, env)
         return None
 
     def _nonempty(self, b: Tuple[str, ...]) -> bool:
